@@ -40,7 +40,8 @@ PROPS = {
                      "one series per label set within a query for count() without grouping fields (TSIDs are hashes of the full label set); duplicate ids are exercised for model correspondence only"],
     ),
     "C10": dict(
-        suites=[("wal", 2500, 40000)],
+        handlers=["C10R"],
+        suites=[("wal", 2500, 40000), ("walrecover", 25, 150)],
         trusted_base=["CRC-32 and zstd are parameters of the model (any function / any injective codec); the Oracle instantiates CRC-32 with a Lean implementation that the correspondence run validates against hash/crc32"],
         decided_by_proof="WAL framing: intact replay, truncation at every byte = exact prefix of complete frames, crash at every write boundary, single-byte damage detected modulo an explicit checksum accident, datapoint block codec round trip",
         partial="RecoverWALData's file discovery/ordering and re-flush, metric-name and metrics-meta WALs: correspondence/E2E only",
@@ -136,9 +137,9 @@ PROPS = {
     "C02": dict(
         handlers=["C02K"],
         suites=[("e2e_c02", 150, 4000), ("cmpk", 24000, 240000)],
-        decided_by_proof="query time-range tests (record filter = inclusive membership, block filter = range intersection, pruning sound) on kernels regenerated from the source. Typed comparison kernel (Model/Cmp.lean mirrors filterOpOnDataType / fopOnNumber / compareNumberDte / enclosureFromJsonNumber / checkRangeIndexHelper / the where-stage comparison; suite cmpk): for EVERY stored value of the writer's kinds (int64, uint64, float64, string, bool, back-fill), every operator, every number text and every float64 rounding function with RndOk, the search-clause comparison of the record bytes with the literal enclosure equals the comparison BY VALUE under the decidable guard CmpGuard (implCmp_eq_spec_partial); the full statement is refuted by six counterexample theorems, one per excluded class (1e-4 AlmostEquals tolerance on = / !=; integer record beyond 2^53 vs float-typed literal; float record vs integer literal beyond 2^53; uint64 record vs negative literal; int64 record vs literal >= 2^63; numeric strings), each replayed on the real code (corpus/cmpk.ops); integer record exactly representable in float64 vs ANY float-typed literal under < <= > >= is by value (int_vs_decimal_order_by_value: the case repaired by ec0bd3f); the block range-index check with the float fallback never skips a range holding a satisfying value under rangeGuard (range_check_sound_partial, on the regenerated does*PassRangeFilter kernels; two counterexample theorems beyond 2^53); search clause and where stage agree on numeric fields under CmpGuard and whereGuard (search_where_agree_partial; counterexample theorems for where x=0 on non-integral floats, the tolerance, integers beyond 2^53); = / != on strings is (ASCII case-folded) byte equality (string_eq_ne)",
+        decided_by_proof="query time-range tests (record filter = inclusive membership, block filter = range intersection, pruning sound) on kernels regenerated from the source. Typed comparison kernel (Model/Cmp.lean mirrors filterOpOnDataType / fopOnNumber / compareNumberDte / enclosureFromJsonNumber / checkRangeIndexHelper / the where-stage comparison as they are AFTER the C02 repairs; suite cmpk): for EVERY stored value of the writer's kinds (int64, uint64, float64, string, bool, back-fill), every operator, every number text and every float64 rounding function with RndOk, the search-clause comparison of the record bytes with the literal enclosure equals the comparison BY VALUE under the decidable guard CmpGuard (implCmp_eq_spec_partial); the full statement is refuted by four counterexample theorems, one per excluded class (integer record beyond 2^53 vs float-typed literal; float record vs integer literal beyond 2^53; uint64 record vs negative literal — latent; numeric strings), each replayed on the real code (corpus/cmpk.ops); without any guard: int64 record vs integer literal of any size (int_vs_int_literal_by_value), float64 record vs any float-typed literal incl. = and != (float_vs_decimal_by_value), integer record exactly representable in float64 vs any float-typed literal under all six operators (int_vs_decimal_by_value: the case repaired by ec0bd3f); the block range-index check with the float fallback never skips a range holding a satisfying value under rangeGuard (range_check_sound_partial, on the regenerated does*PassRangeFilter kernels; two counterexample theorems beyond 2^53); search clause and where stage agree on numeric fields under CmpGuard and whereGuard (search_where_agree_partial) and, guard-free, whenever every integer involved is within +-2^53 (search_where_agree_within_2_53; the only remaining counterexample is beyond 2^53); kept for the record under ...Old definitions: counterexample theorems for the repaired tolerance, wrapped-literal and where-x=0 defects; = / != on strings is (ASCII case-folded) byte equality (string_eq_ne)",
         partial="wildcard/term matching, regular-expression literals, the boolean structure (AND/OR/NOT, sparse fields) and whole queries: end-to-end differential against the Lean specification (SigModel/Spec/Logs.lean); Go regexp engine and SPL parser are glue. Kernel slice: non-finite float64 (NaN/Inf cannot be ingested from JSON) and the narrow numeric record kinds (int8..uint32, emitted by no writer) are tied by correspondence only; multi-value range entries are covered by the theorem through `contains`, the writer's folding of values into a range (updateRangeIndex) is exercised for one-value ranges only",
-        trusted_base=["float64 rounding is a parameter `rnd` of the comparison model; theorems assume RndOk rnd (rnd 0 = 0, 0 < rnd 0.0001, rnd idempotent, rnd fixes binary64 values) and carry exactness of rnd on each converted integer in the guards; the Oracle instantiates rnd with a Lean round-to-nearest-even (roundF64) that the correspondence run validates against strconv.ParseFloat / float64(int) / float64 subtraction on every sampled line (op `lit` compares the bit patterns)",
+        trusted_base=["float64 rounding is a parameter `rnd` of the comparison model; theorems assume RndOk rnd (rnd 0 = 0, rnd idempotent, rnd fixes binary64 values; Exact53 = exact on integers within +-2^53 where stated) and carry exactness of rnd on each converted integer in the guards; the Oracle instantiates rnd with a Lean round-to-nearest-even (roundF64) that the correspondence run validates against strconv.ParseFloat / float64(int) on every sampled line (op `lit` compares the bit patterns)",
                       "the three strconv parsers applied to a literal's text (ParseUint, ParseInt, ParseFloat) are summarised by the structure NumText (which of them succeed, exact decimal value); the Oracle computes it from the text for the grammar [+-]digits[.digits][e[+-]digits]; hex floats, inf/nan and underscores are outside"],
         assumptions=["int64(f)/uint64(f) of a FLOAT literal outside the target range are implementation-defined in Go; no comparison reads these two fields of a float-typed literal (model and theorems do not depend on them)"],
     ),
@@ -153,8 +154,9 @@ PROPS = {
     "C04": dict(
         suites=[("e2e_c04", 150, 4000), ("stats", 4000, 60000)],
         handlers=["C04S"],
-        decided_by_proof="time buckets partition the range (regenerated FindTimeRangeBucket): containment, grid alignment, clamped branches",
-        partial="count/sum/min/max/avg by group: end-to-end differential against the specification; dc and percentiles (HLL / t-digest sketches) are not modelled",
+        decided_by_proof="time buckets partition the range (regenerated FindTimeRangeBucket): containment, grid alignment, clamped branches. Running statistics of a measure field (model SigModel/Model/Stats.lean tied to AddSegStatsNums/AddSegStatsStr, addSegStatsNums/addSegStatsStrIngestion, SegStats.Merge/MergeSegStats, GetSeg*, the group-by bucket and MergeBuckets by the correspondence suite stats), for every value list under exact float arithmetic: folded count / numeric count / sum / min / max equal the mathematical aggregates of the numeric values unless the int64 sum can wrap (wrap branch characterised, counterexample); merge of the statistics of any split in any association and order equals the statistics of the whole list unless a merged part is text-only (counterexample: IsNumeric not merged); avg of the no-group path divides by the numeric count; avg/count(x) of the group-by bucket divide by / report the record count (counterexample, exact characterisation, partial theorem for dense fields); ingest-time and query-time statistics coincide unless a string is a digit-less FastParseFloat form (counterexample); group-by min/max over mixed text/number depend on event order (counterexample)",
+        partial="count/sum/min/max/avg by group end to end: differential against the specification; float64 rounding of sums (theorems are for exact arithmetic; the Oracle's IEEE rounding is tied by correspondence only), range, values/list/earliest/latest, the merge algebra of the group-by bucket, uint64 and bool inputs: correspondence / end-to-end only; dc and percentiles (HLL / t-digest sketches) are not modelled",
+        trusted_base=["float64 arithmetic of the statistics kernels is a parameter rnd of the model: theorems use exact arithmetic, the Oracle a Lean round-to-nearest-even (roundF64) that the correspondence run validates against Go on dyadic and non-dyadic values; strings that strconv.ParseFloat reads as NaN/Inf/hex/underscore numbers are outside the model (answered unmodelled, checked by the Go-side property checks only)"],
     ),
     "C05": dict(
         suites=[("e2e_c05", 150, 4000), ("c05sched", 3000, 60000), ("c05cmp", 3000, 60000)],
@@ -243,8 +245,8 @@ PROPS = {
             "getAndIncrementSuffixFromFile.order": ["getSuffix", "writeSuffix"],
             "writeSuffix.order": ["os.WriteFile", "os.Rename"],
             "FlushSegStats.order": ["os.OpenFile", "os.Rename"],
-            # the window: truncating open, then the write (no temp file + rename)
-            "WriteSfm.order": ["os.OpenFile", "Write", "Sync"],
+            # .sfm.tmp is written and synced, then renamed onto the .sfm (the .sfm is never truncated in place)
+            "WriteSfm.order": ["os.OpenFile", "Write", "Sync", "os.Rename"],
             "BulkAddRotatedSegmetas.order": ["WriteSfm", "os.OpenFile", "os.OpenFile", "Write", "Sync"],
             "addSegmeta.order": ["BulkAddRotatedSegmetas"],
             "WriteRunningSegMeta.order": ["WriteSfm"],
@@ -252,10 +254,10 @@ PROPS = {
         trusted_base=["harness/cmd/overlaygen/crash.go: re-prints segstore.go, segmetarw.go, segwriter.go, suffix.go and checksumfile.go from the repo's current AST with a call utils.VerifCrashPoint(label) before every statement of the flush / rotate / segmeta / suffix / chunk-writer functions (comments dropped, nothing else changed); the call is a no-op unless VERIF_CRASH_AT / VERIF_CRASH_LOG are set",
                       "the mapping crash point -> number of completed model steps is the marker table in harness/cmd/corr/c07_crash.go (function + callee of the statement that just completed); the step ORDER is tied by the `X order` line of every history and by the call-order facts",
                       "the restarted process is the in-process engine initialised in the order of cmd/startup (InitVTable, InitWriterNode, InitQueryNode) on the same directory; the check waits for the startup goroutine initSyncSegMetaForAllIds (log hook) before it queries; crash points that leave byte-identical data directories share one restarted process"],
-        decided_by_proof="for EVERY history of buffer flushes (each with any completion order of its column-file appends) and rotations and EVERY number k of completed file-system steps: (2) no block served by a restart lacks a column chunk and no flush is served twice (the flush in progress is all-or-nothing); (3) everything served is a completed flush or the one flush in progress; (4) the suffix the restarted writer takes is larger than every existing segment directory and segments without a directory have no files; (1) every completed flush is served exactly once — REFUTED at full strength by a counterexample theorem (two flushes, crash between the O_TRUNC open and the write of the second flush's WriteSfm: the zero-byte .sfm makes the open segment unadoptable and the first, completed flush is lost; confirmed on the real code at every crash point of that window, known finding) and PROVED under the exact guard 'the crash is not inside a WriteSfm truncate-write window'",
-        partial="process-crash model only (completed calls persist; torn writes, power loss and the missing fsync before the .sst/suffix renames are outside the property and the model). Not modelled: persistent-query result files (pqmr) and the pqid back-fill that rewrites the .sfm of ROTATED segments through the same WriteSfm (same window, not exercised), star-tree/sort-index files, time- or size-triggered flushes racing with ingest, segmeta.json rewrites by deletion/retention (removeSegmetas: instrumented, not driven by the histories), a second crash during recovery, blob-store upload, metrics segments. Record CONTENT after restart, filter (bloom/range index) and statistics (.sst) paths, startup without error and freshness of the next segment directory are checked end to end at every crash point but are not objects of the model (flush = opaque id)",
+        decided_by_proof="for EVERY history of buffer flushes (each with any completion order of its column-file appends) and rotations and EVERY number k of completed file-system steps: (1) every flush that had completed (running .sfm renamed into place) is served by a restart, exactly once; (2) no block served by a restart lacks a column chunk and no flush is served twice (the flush in progress is all-or-nothing); (3) everything served is a completed flush or the one flush in progress; (4) the suffix the restarted writer takes is larger than every existing segment directory and segments without a directory have no files. For the write order BEFORE the repair of WriteSfm (truncate the .sfm in place, then write) statement (1) is refuted by a counterexample theorem about the explicitly named Old step lists (two flushes, crash between the O_TRUNC open and the write of the second flush's WriteSfm)",
+        partial="process-crash model only (completed calls persist; torn writes, power loss and the missing fsync before the .sst/suffix renames are outside the property and the model). Not modelled: persistent-query result files (pqmr) and the pqid back-fill that rewrites the .sfm of ROTATED segments through WriteSfm concurrently with the writer (two writers of one .sfm.tmp are not modelled), star-tree/sort-index files, time- or size-triggered flushes racing with ingest, segmeta.json rewrites by deletion/retention (removeSegmetas: instrumented, not driven by the histories), a second crash during recovery, blob-store upload, metrics segments. Record CONTENT after restart, filter (bloom/range index) and statistics (.sst) paths, startup without error and freshness of the next segment directory are checked end to end at every crash point but are not objects of the model (flush = opaque id)",
         assumptions=["one index / one stream per node; the writer is the only process writing the data directory",
-                     "a flush is 'completed' when the flush/rotate call returned or AppendWipToSegfile reached its rotation check; in the model: when the running .sfm was written"],
+                     "a flush is 'completed' when the flush/rotate call returned or AppendWipToSegfile reached its rotation check; in the model: when the running .sfm was renamed into place"],
     ),
 }
 
